@@ -67,6 +67,8 @@ impl Knobs {
 
 #[derive(Clone, Debug)]
 pub struct Outcome {
+  /// self-deadlocks in the single-threaded final pass
+  pub self_deadlocks: Vec<String>,
   pub answers: Vec<Vec<Answer>>,
   pub stats: SimStats,
   /// single-threaded observer pass over every object after the threads ended
@@ -172,6 +174,7 @@ pub fn run_concurrent_on(
 ) -> Outcome {
   sched::set_quiet(true);
   let _ = sched::take_unsafe_fails();
+  let _ = sched::take_seq_deadlocks();
   let n = threads.len();
   let sim = Sim::new(
     n,
@@ -235,6 +238,7 @@ pub fn run_concurrent_on(
   unsafe_fails.extend(sched::take_unsafe_fails().iter().map(|s| s.to_string()));
   sched::flush_unsafe_hits();
   Outcome {
+    self_deadlocks: sched::take_seq_deadlocks(),
     answers,
     stats,
     tail,
@@ -249,6 +253,8 @@ pub struct SeqOutcome {
   pub tail: Vec<Vec<Answer>>,
   pub unsafe_fails: Vec<String>,
   pub events: BTreeMap<String, u64>,
+  /// a single-threaded call waited forever for a lock (left held / re-entered)
+  pub self_deadlocks: Vec<String>,
 }
 
 pub fn run_sequential(
@@ -261,6 +267,7 @@ pub fn run_sequential(
   sched::set_quiet(true);
   let _ = sched::take_unsafe_fails();
   let _ = sched::take_seq_events();
+  let _ = sched::take_seq_deadlocks();
   let objs = build_objects(scn, shards);
   let refs: Vec<&crate::exec::Dyn> = objs.iter().map(|o| o.as_ref()).collect();
   let mut answers: Vec<Vec<Answer>> = scn
@@ -286,11 +293,13 @@ pub fn run_sequential(
   drop(refs);
   drop(objs);
   sched::flush_unsafe_hits();
+  let self_deadlocks = sched::take_seq_deadlocks();
   SeqOutcome {
     answers,
     tail,
     unsafe_fails,
     events,
+    self_deadlocks,
   }
 }
 
